@@ -1,11 +1,147 @@
+//! C32 — peers are served exactly what the database holds, within limits.
+//!   cached.rs : (a) CachedView == database for any request history / chain growth
+//!   codec.rs  : (b) request/response codec round trip and size limit
+//!   net.rs    : (c) range-length limit through two real p2p services over loopback
+//!   chain.rs  : generated chain in a real on-chain database + message generators
+
+use serde_json::json;
 use vcommon::*;
+
+mod cached;
+mod chain;
+mod codec;
+mod net;
+
+const RULE: &str = "(a) sessions: a real CachedView (capacity 1..=8) in front of the real on-chain database view of a generated chain; 120-300 ops per session drawn from {headers(range), transactions(range), grow 1-3 blocks}; ranges within / up to / across / beyond the tip, empty, reversed, up to u32::MAX, and overlapping the previous request; every answer is compared with the database's own answer at that moment and with the harness' record of what it wrote; plus 4 threads sharing one cache. Distinct non-trivial = a request that was (partly) answered from the cache (key: kind, capacity, range, chain length, first height fetched from the database). (b) generated request/response messages of all variants, Ok and all 4 serializable error codes, protocols V1/V2, read back with the size limit at L-1, L, L+1, L/2, u32::MAX around the encoded length L. (c) two real p2p services over loopback: ranges of length {1,max-1,max,max+1,2max,1000} at 3 offsets requested from a server with max_headers_per_request=4.";
 
 fn main() {
     let args = Args::parse();
     install_quiet_panic_hook();
     let report = Report::new(&args.property);
     match args.property.as_str() {
+        "C32" => c32(&args, &report),
         other => report.inconclusive(format!("property {other} not implemented in this monitor")),
     }
-    report.finish(&args, "exploration", "", false, &[]);
+    report.finish(
+        &args,
+        "exploration",
+        RULE,
+        false,
+        &[
+            "the chain only grows (no rollback / reorg while the cache is alive), as in a running node",
+            "the database view is taken fresh per request, as Task::handle_db_request does",
+            "protocol V1 cannot carry error codes: an error response is expected back as ProtocolV1EmptyResponse",
+            "NetworkableTransactionPool is generated in its `Transaction` form only (the `PoolTransaction` form needs checked pool transactions)",
+            "part (c) judges only replies actually received; if the loopback connection does not come up the run is inconclusive, never a violation",
+        ],
+    );
+}
+
+fn c32(args: &Args, report: &Report) {
+    let selftest: u32 = args.extra.get("selftest").and_then(|s| s.parse().ok()).unwrap_or(0);
+
+    if let Some(rep) = read_replay(args) {
+        if rep["phase"] == "net" {
+            net::run(report, args.seed, selftest);
+        } else if rep.get("ops").is_some() {
+            // (a): the session is a pure function of (seed, iteration)
+            let p = cached::Params {
+                selftest,
+                ops_per_session: args.by_tier(120, 300),
+            };
+            cached::session(
+                report,
+                &p,
+                rep["seed"].as_u64().unwrap_or(0),
+                rep["shard"].as_u64().unwrap_or(0) as usize,
+                rep["iteration"].as_u64().unwrap_or(0),
+            );
+        } else {
+            // (b): one generated message pair, again a pure function of (seed, iteration)
+            let seed = rep["seed"].as_u64().unwrap_or(0);
+            let it = rep["iteration"].as_u64().unwrap_or(0);
+            codec::run_shard(report, selftest, seed, rep["shard"].as_u64().unwrap_or(0) as usize, it + 1);
+        }
+        return;
+    }
+
+    // (c) runs on its own thread, overlapping with (a) and (b)
+    let net_thread = {
+        let report = report.clone();
+        let seed = args.seed;
+        std::thread::spawn(move || net::run(&report, seed, selftest))
+    };
+
+    // (a)
+    let shards = args.by_tier(64usize, 256usize);
+    let sessions_per_shard = args.by_tier(40u64, 150u64);
+    let ops = args.by_tier(120usize, 300usize);
+    {
+        let report2 = report.clone();
+        run_shards(report, args, shards, move |shard, shard_seed| {
+            let p = cached::Params {
+                selftest,
+                ops_per_session: ops,
+            };
+            for it in 0..sessions_per_shard {
+                cached::session(&report2, &p, shard_seed, shard, it);
+            }
+        });
+    }
+    report.info("c32.phase_a_sessions_done_s", json!(report.start.elapsed().as_secs_f64()));
+    cached::concurrent_phase(report, args.seed, selftest);
+    report.info("c32.phase_a_concurrent_done_s", json!(report.start.elapsed().as_secs_f64()));
+
+    // (b)
+    let codec_iters = args.by_tier(400u64, 3000u64);
+    {
+        let report2 = report.clone();
+        let mut a2 = args.clone();
+        a2.property = "C32-codec".into(); // different shard seeds than (a)
+        run_shards(report, &a2, shards, move |shard, shard_seed| {
+            codec::run_shard(&report2, selftest, shard_seed, shard, codec_iters);
+        });
+    }
+    codec::probe_unknown_code(report);
+    report.info("c32.phase_b_done_s", json!(report.start.elapsed().as_secs_f64()));
+
+    let _ = net_thread.join();
+    report.info("c32.phase_c_joined_s", json!(report.start.elapsed().as_secs_f64()));
+
+    let sessions = shards as u64 * sessions_per_shard;
+    report.info("c32.sessions", json!(sessions));
+    let requests = sessions * ops as u64;
+    report.require("c32.requests.headers", requests / 4);
+    report.require("c32.requests.transactions", requests / 4);
+    report.require("c32.ops.grow", requests / 20);
+    report.require("c32.cache.partial_hit", requests / 50);
+    report.require("c32.cache.full_hit", requests / 50);
+    report.require("c32.cache.miss", requests / 20);
+    report.require("c32.cache.partial_hit_across_tip", requests / 1000);
+    report.require("c32.range.within", requests / 8);
+    report.require("c32.range.across_tip", requests / 20);
+    report.require("c32.range.beyond_tip", requests / 20);
+    report.require("c32.range.empty", requests / 20);
+    report.require("c32.answers.some", requests / 8);
+    report.require("c32.answers.none", requests / 8);
+    for c in 1..=8 {
+        report.require(&format!("c32.cache.capacity.{c}"), sessions / 20);
+    }
+    report.require("c32.concurrent.requests", 5 * 4 * 150 * 9 / 10);
+    let msgs = shards as u64 * codec_iters;
+    for v in ["SealedHeaders", "Transactions", "TxPoolAllTransactionsIds", "TxPoolFullTransactions"] {
+        report.require(&format!("c32.codec.request.{v}"), msgs / 8);
+        for p in ["v1", "v2"] {
+            report.require(&format!("c32.codec.response.{p}.{v}.ok"), msgs / 10);
+            report.require(&format!("c32.codec.response.{p}.{v}.err"), msgs / 40);
+        }
+    }
+    report.require("c32.codec.oversize_rejected", msgs);
+    report.require("c32.codec.response.limit_at", msgs);
+    report.require("c32.codec.response.larger_than_10k", msgs / 100);
+    // (c): the limit must actually have been exercised on both sides of the boundary
+    report.require("c32.net.refused_over_limit", 6);
+    report.require("c32.net.served_within_limit", 6);
+    report.require("c32.net.judged.transactions.len_max", 2);
+    report.require("c32.net.judged.transactions.len_max+1", 2);
 }
